@@ -125,6 +125,10 @@ def near_boundary(lib, tm, s):
       return 'tendon-deadband'
   if int(d.ncon):
     return 'contact'
+  if tm.nv:
+    cond = np.linalg.cond(lib.fullM(tm, d))
+    if not np.isfinite(cond) or cond > 1e8:
+      return 'illconditioned'
   # velocities exactly zero make |v|v fluid terms and norm() kinks reachable
   return None
 
@@ -312,14 +316,27 @@ def shard_main(ck, shard, nshards):
       g0 = Y[-1]
       ests = [((Y[i * n:(i + 1) * n] - Y[(3 + i) * n:(4 + i) * n]) / (2 * k * h[:, None])).T for i, k in enumerate((1, 2, 4))]
       Jfd = np.median(np.stack(ests), axis=0)
+      if not np.all(np.isfinite(Y)):
+        ck.discard('g-not-finite'); continue          # the step itself diverged at (a neighbour of) this point
       if not np.all(np.isfinite(Jf)):
         bad = np.argwhere(~np.isfinite(Jf))[0]
-        raise Violation('jacfwd of step is not finite: d out[%d] / d %s = %s (g finite: %s)' % (
-            bad[0], G.names()[bad[1]], Jf[bad[0], bad[1]], bool(np.all(np.isfinite(g0)))), bucket='non-finite')
-      if not np.all(np.isfinite(Y)):
-        ck.discard('g-not-finite'); continue
+        raise Violation('jacfwd of step is not finite: d out[%d] / d %s = %s while g is finite at the point and at all %d '
+                        'neighbouring finite-difference points' % (bad[0], G.names()[bad[1]], Jf[bad[0], bad[1]], 6 * n),
+                        bucket='non-finite')
       scale = 1.0 + np.max(np.abs(Jf), axis=1) + np.abs(g0)
-      E = np.abs(Jf - Jfd) / scale[:, None]
+      # an entry is only judged where finite differences are trustworthy: the three estimates (h, 2h, 4h) must agree with
+      # each other within half the tolerance; otherwise (nearly singular inertia: |J| ~ 1e8..1e17, isolated solver
+      # glitches) the entry is skipped and counted.  A wrong derivative rule leaves the estimates consistent.
+      spread = (np.max(np.stack(ests), axis=0) - np.min(np.stack(ests), axis=0)) / scale[:, None]
+      reliable = spread <= 0.5 * TOL_FD
+      nskip = int((~reliable).sum())
+      if nskip:
+        ck.label('fd-unreliable-entries-skipped')
+        worst['fd-entries-skipped'] += nskip
+      worst['fd-entries-checked'] += int(reliable.sum())
+      if reliable.mean() < 0.5:
+        ck.discard('fd-unreliable-point'); continue
+      E = np.where(reliable, np.abs(Jf - Jfd) / scale[:, None], 0.0)
       e = float(E.max())
       worst['fd'] = max(worst['fd'], e)
       if e > TOL_FD:
@@ -327,9 +344,10 @@ def shard_main(ck, shard, nshards):
         nm = G.names()
         outn = (['qacc%d' % i for i in range(tm.nv)] + ['qvel\'%d' % i for i in range(tm.nv)] + ['qpos\'%d' % i for i in range(tm.nq)]
                 + ['act\'%d' % i for i in range(tm.na)])
-        raise Violation('d %s / d %s: jacfwd=%.12g central FD=%.12g (row-scaled err %.3g > %.1g); column AD=%s FD=%s' % (
-            outn[r], nm[col], Jf[r, col], Jfd[r, col], e, TOL_FD, np.array2string(Jf[:, col][:10], precision=8),
-            np.array2string(Jfd[:, col][:10], precision=8)), bucket='grad-vs-fd:' + re.sub(r'[\[\d\]]', '', nm[col]))
+        raise Violation('d %s / d %s: jacfwd=%.12g central FD=%.12g (h,2h,4h estimates %s; row-scaled err %.3g > %.1g); column AD=%s FD=%s' % (
+            outn[r], nm[col], Jf[r, col], Jfd[r, col], [float('%.9g' % x[r, col]) for x in ests], e, TOL_FD,
+            np.array2string(Jf[:, col][:10], precision=8), np.array2string(Jfd[:, col][:10], precision=8)),
+            bucket='grad-vs-fd:' + re.sub(r'[\[\d\]]', '', nm[col]))
       try:
         Jr = np.asarray(G.jrev(jp.asarray(x0), qpos0, dxs))
       except Exception as e:
@@ -363,7 +381,9 @@ def main(ck):
   nshards = int(os.environ.get('C45_SHARDS', 3 if ck.quick else 6))
   extra = mjxshard.run(ck, 'c45', nshards, timeout=(1800 if ck.quick else 5400))
   worst = mjxshard.merge_max(extra.get('worst', []))
-  ck.extra['worst_row_scaled_err'] = {k: float('%.3g' % v) for k, v in worst.items()}
+  counts = mjxshard.merge_sum([{k: v for k, v in d.items() if k.startswith('fd-entries')} for d in extra.get('worst', [])])
+  ck.extra['worst_row_scaled_err'] = {k: float('%.3g' % v) for k, v in worst.items() if not k.startswith('fd-entries')}
+  ck.extra['jacobian_entries'] = {k: int(v) for k, v in counts.items()}
   ck.extra['shards'] = nshards
   ck.extra['tolerances'] = dict(fd=TOL_FD, fwd_rev=TOL_FWD_REV, h=H, clamp_exclusion=CLAMP_EXCL)
 
